@@ -402,7 +402,7 @@ Definition file_ops (name : str) (full : Z) (resume : option (list step_arg * Z)
      onSize(full) onStep* onDone                                          (sent from its beginning)
      onSize(full) onStep* setPreSize(m) onSize(full-m) onStep* onDone     (a prefix is at the destination)
    with the steps of each phase in non-decreasing order within the announced size, the last one
-   equal to it, and m = the last matching hash step (0 when none).  Every step of an entry comes
+   equal to it (an empty file has no step at all), and m = the last matching hash step (0 when none).  Every step of an entry comes
    before its onDone and before anything of the next entry. ---- *)
 Inductive cbstate :=
 | CbStart
@@ -422,10 +422,10 @@ Definition cb_next (st : cbstate) (o : op) : cbstate :=
   | OpSize x, CbNamed => if 0 <=? x then CbSized x (-1) else CbBad
   | OpStep s _ _ _ _, CbSized x last => if (last <=? s) && (s <=? x) then CbSized x s else CbBad
   | OpPre m, CbSized x last => if m =? Z.max last 0 then CbPre x m else CbBad
-  | OpDone _ _ _ _, CbSized x last => if last =? x then CbFiles else CbBad
+  | OpDone _ _ _ _, CbSized x last => if Z.max last 0 =? x then CbFiles else CbBad
   | OpSize r, CbPre x m => if r =? x - m then CbData r (-1) else CbBad
   | OpStep s _ _ _ _, CbData r last => if (last <=? s) && (s <=? r) then CbData r s else CbBad
-  | OpDone _ _ _ _, CbData r last => if last =? r then CbFiles else CbBad
+  | OpDone _ _ _ _, CbData r last => if Z.max last 0 =? r then CbFiles else CbBad
   | _, _ => CbBad
   end.
 
